@@ -1,7 +1,9 @@
 package absint
 
 import (
+	"fmt"
 	"go/types"
+	"io"
 
 	"golang.org/x/tools/go/ssa"
 )
@@ -160,4 +162,64 @@ func (e *Engine) IsFreshCell(st *State, obj PtrV, field string) bool {
 	}
 	_, isM := c.V.(entryMarker)
 	return isM
+}
+
+// Hits lists the live search results r = IndexByte/Index(h, needle) of a state.
+type Hit struct {
+	R      Sym
+	Hay    StrV
+	Needle Lin  // needle length
+	Mask   Mask // possible needle bytes (IndexByte)
+}
+
+func (e *Engine) Hits(st *State) []Hit {
+	var out []Hit
+	for r, h := range st.hits {
+		n := h.nlen
+		if n.IsConst() && n.C == 0 {
+			n = K(1)
+		}
+		out = append(out, Hit{R: r, Hay: h.h, Needle: n, Mask: h.mask})
+	}
+	return out
+}
+
+// Masks lists the bytes of root whose possible values are restricted in st.
+type ByteFact struct {
+	Idx Lin
+	M   Mask
+}
+
+func (e *Engine) ByteFacts(st *State, root Sym) []ByteFact {
+	var out []ByteFact
+	for _, m := range st.masks {
+		if m.Root == root && !m.M.isFull() {
+			out = append(out, ByteFact{m.Idx, m.M})
+		}
+	}
+	return out
+}
+
+// Count returns the number of values in the mask.
+func (m Mask) Count() int {
+	n := 0
+	for i := 0; i < 256; i++ {
+		if m.has(i) {
+			n++
+		}
+	}
+	return n
+}
+
+// ProveLT is exported for hooks.
+func (e *Engine) ProveLT(s *State, a, b Lin) bool { return e.proveLT(s, a, b) }
+
+// Sym returns V(s) for hooks.
+func SymLin(s Sym) Lin { return V(s) }
+
+// DumpCons prints the constraint store (debugging).
+func (e *Engine) DumpCons(st *State, w io.Writer) {
+	for _, c := range st.cons {
+		fmt.Fprintf(w, "      %s <= 0\n", e.LinStr(c))
+	}
 }
